@@ -106,7 +106,7 @@ unsigned char sk_pattern(int tag, long off)
 static int fault(int kind)
 {
   if (K && sk_cur == 0 && sk_yield_hook && K->in_api &&
-      (kind == 1 || kind == 2 || kind == 3 || kind == 4 || kind == 5 || kind == 7 || kind == 8 || kind == 9 || kind == 10 || kind == 11))
+      (kind == 1 || kind == 2 || kind == 3 || kind == 4 || kind == 5 || kind == 6 || kind == 7 || kind == 8 || kind == 9 || kind == 10 || kind == 11))
     sk_yield_hook(kind);
   if (!K || !K->in_api) return 0;
   int side = SIDE;
